@@ -4,7 +4,7 @@ import sys, json, os, subprocess, shutil
 ROOT = os.path.dirname(os.path.abspath(__file__)); sys.path.insert(0, ROOT)
 import check
 r = json.load(open(sys.argv[1])); h = r['cfg']
-tu = check.compile_tu(h['src'], h.get('std', 'c++17'), bool(h.get('exc')), list(h.get('defs', [])), r['property'])
+tu = check.compile_tu(h['src'], h.get('std', 'c++17'), bool(h.get('exc')), list(h.get('defs', [])), r['property'], tuple(h.get('extra', [])))
 if not tu['ok']: print(tu['err']); sys.exit(2)
 cf = sys.argv[1] + '.cfg'; json.dump(h, open(cf, 'w'))
 sys.exit(subprocess.call([check.PY, os.path.join(ROOT, 'engine', 'explore.py'), tu['ll'], '--cfg', cf, '--replay', sys.argv[1]], cwd=os.path.join(ROOT, 'engine')))
